@@ -215,6 +215,7 @@ func runLinearHistory(e *Env, ctx context.Context, r *Rng, nodes []*Nd, serial i
 	defer sub.cancel()
 	rowAfter := map[string]string{}
 	var expectSub []string
+	var txnCids []string
 	record := func() {
 		if len(h.comps) == 0 {
 			return
@@ -244,7 +245,55 @@ func runLinearHistory(e *Env, ctx context.Context, r *Rng, nodes []*Nd, serial i
 	if h.bad {
 		return h
 	}
+	// two updates of the document inside ONE explicit transaction: two commits become visible together; the
+	// subscription must still report each change with the values of ITS commit
+	if r.Chance(70) {
+		x := nodes[w]
+		x.drainUpdates(0, 0)
+		t, err := x.n.DB.NewTxn(ctx, false)
+		if err == nil {
+			u1 := h.randVals(r, false, true)
+			u1["points"] = 1 + r.Intn(5)
+			u1["age"] = 50 + r.Intn(5)
+			u2 := h.randVals(r, false, true)
+			u2["points"] = 1 + r.Intn(5)
+			u2["age"] = 60 + r.Intn(5)
+			r1 := t.ExecRequest(ctx, fmt.Sprintf(`mutation { update_User(docID: "%s", input: {%s}) { _docID } }`, h.docID, gqlFields(u1)))
+			r2 := t.ExecRequest(ctx, fmt.Sprintf(`mutation { update_User(docID: "%s", input: {%s}) { _docID } }`, h.docID, gqlFields(u2)))
+			h.desc = append(h.desc, fmt.Sprintf("txn@%s { update %s ; update %s } commit", x.name, gqlFields(u1), gqlFields(u2)))
+			if len(r1.GQL.Errors) == 0 && len(r2.GQL.Errors) == 0 && t.Commit(ctx) == nil {
+				evs := x.drainUpdates(2, 2*time.Second)
+				if len(evs) != 2 {
+					e.violate("subscription-count", fmt.Sprintf("%d update events for a committed transaction with two updates", len(evs)), h.replay())
+				}
+				for _, ev := range evs {
+					if b := h.register(x, ev.Cid); b != nil && b.info.Kind == "composite" {
+						h.comps = appendUniq(h.comps, b.cid)
+						h.merged[w][b.cid] = true
+						txnCids = append(txnCids, b.cid)
+						// a local write whose intermediate state cannot be observed from outside the transaction
+						h.steps = append(h.steps, stepObs{kind: "local-quiet", node: w, cid: b.id})
+					}
+				}
+				e.count("txn_double_update")
+				h.afterStep("local-rejected", w, nil, "")
+			} else {
+				t.Discard(ctx)
+			}
+		}
+	}
 	h.versionedSweep(w, rowAfter)
+	// the expected subscription result of a commit made inside the transaction is the time-travel state at that commit
+	for _, c := range txnCids {
+		data, errs := nodes[w].gql(ctx, fmt.Sprintf(versionedQuery, c, h.docID))
+		if rows := rowsOf(data, "User"); errs == "" && len(rows) == 1 {
+			vals := map[string]any{}
+			for _, f := range crdtFields {
+				vals[f.name] = rows[0][f.name]
+			}
+			expectSub = append(expectSub, canonJSON(vals))
+		}
+	}
 	// subscription: exactly one result per committed change, with the values of that commit
 	got := sub.wait(len(expectSub), 3*time.Second)
 	for _, er := range sub.errs {
